@@ -230,6 +230,8 @@ var detTemplates = []detTemplate{
 	{name: "reformat-phyloxml", args: []string{"reformat", "phyloxml", "-i", "@trees.nw", "--seed", "@SEED", "-o", "@OUT"}},
 	{name: "reformat-newick-from-nexus", args: []string{"reformat", "newick", "-i", "@trees.nx", "-f", "nexus", "--seed", "@SEED", "-o", "@OUT"}},
 	{name: "consensus", args: []string{"compute", "consensus", "-i", "@trees.nw", "-f", "0.5", "--seed", "@SEED", "-o", "@OUT"}},
+	{name: "bipartitiontree-repeated-names", args: []string{"compute", "bipartitiontree", "-i", "@one.nw", "-f", "@tips.txt", "t3", "t0", "t5", "t3", "--seed", "@SEED", "-o", "@OUT"}},
+	{name: "bipartitiontree-names-only", args: []string{"compute", "bipartitiontree", "-i", "@one.nw", "t4", "t1", "t2", "--seed", "@SEED", "-o", "@OUT"}},
 	{name: "bipartitiontree", args: []string{"compute", "bipartitiontree", "-i", "@one.nw", "-f", "@tips.txt", "--seed", "@SEED", "-o", "@OUT"}},
 	{name: "compare-edges", args: []string{"compare", "edges", "-i", "@ref.nw", "-c", "@trees.nw", "--seed", "@SEED"}, stdout: true},
 	{name: "compare-edges-transfer", args: []string{"compare", "edges", "-i", "@ref.nw", "-c", "@trees.nw", "-m", "--moved-taxa", "--seed", "@SEED"}, stdout: true},
